@@ -10,6 +10,7 @@
   C06.6 private operations require is_unlocked=True
   C06.7 parsing protected material never consumes from (or after) an aliased buffer
   C06.8 the S2K derivation has the RFC 4880 3.7.1 structure (shared with C12) so that another implementation derives the same key
+  C06.9 the coded octet count decodes by the RFC 4880 3.7.1.3 formula at every coded value (shared with C12.3)
 """
 import ast
 import re
@@ -17,7 +18,7 @@ import re
 from sa.interp import alpha, expand_bound, Interp, Scenario, Sym, Const, Bytes, Obj, render, render_items, merge_consts
 from sa.loader import AnalysisError, dotted
 from sa.cfg import CFG, calls_in, own_exprs
-from sa import guards, codec, keyaction, tables
+from sa import guards, codec, keyaction, tables, s2kshape
 from rules import C12
 
 noinline = lambda f: False  # noqa: E731
@@ -33,6 +34,7 @@ def run(rep, prog, tier):
     rep.rule('C06.7', 'protected-material parse: no consumption from an aliased buffer', floor=10)
     rep.rule('C06.8', 'S2K derivation structure (RFC 4880 3.7.1)', floor=8)
     rep.rule('C06.8b', 'S2K context count', floor=1)
+    rep.rule('C06.9', 'coded S2K count: decode formula over all 256 octets and setter bounds (protect() writes a coded count; shared with C12.3)', floor=3)
     rep.assume('secrets in interpreter-internal copies (locals, GC) are out of reach of a source-level analysis')
 
     check_unlock(rep, prog)
@@ -43,6 +45,8 @@ def run(rep, prog, tier):
     check_locked_refusal(rep, prog)
     check_protected_parse(rep, prog)
     C12.check_derive_key(rep, prog, 'C06.8', 'C06.8b')
+    # the octet count a protected key is stretched with is stored coded: another implementation decodes it by the RFC formula
+    s2kshape.check_count(rep, prog, 'C06.9')
 
 
 # ------------------------------------------------------------------------------------------------ C06.1
@@ -477,7 +481,17 @@ def check_encrypt_keyblob(rep, prog):
         iv = st.get(S2K + '.iv')
         exp_rest = ['%s.derive_key(%s)' % (S2K, pw), enc_alg, '%s.gen_iv()' % enc_alg]
         dk = prog.method('pgpy.packet.fields', 'String2Key', 'derive_key')
-        a = [a_.replace('derive_key(%s=' % dk.params[1], 'derive_key(') for a_ in a]
+        # the key is what derive_key returns for the caller's passphrase; further arguments are parameters an edit added to
+        # derive_key - C06.8 runs the derivation rule with exactly these call-site values (seen as the callee sees them)
+        a_raw = list(a)
+        known = dk.params[1:] + [x.arg for x in dk.node.args.kwonlyargs]
+        for e in s.events:
+            if e[0] == 'call' and e[1] == S2K + '.derive_key' and len(e[2]) <= len(dk.params) - 1 and all(k in known for k in e[3]):
+                full = dict(zip(dk.params[1:], e[2]))
+                full.update(e[3])
+                txt = '%s(%s)' % (e[1], ', '.join(list(e[2]) + ['%s=%s' % kv for kv in e[3].items()]))
+                if full.get(dk.params[1]) == pw and len(a) > 1 and a[1] == txt:
+                    a = [a[0], exp_rest[0]] + a[2:]
         n_iv = sum(1 for e in s.events if e[0] == 'call' and e[1].endswith('.gen_iv'))     # one IV: the one stored is the one used
         rep.check(a[1:] == exp_rest and iv == exp_rest[2] and not enc[0][2] and n_iv == 1, 'C06.3', 'PrivKey.encrypt_keyblob', '_encrypt key/alg/iv %s' % a[1:],
                   'encryption uses the passphrase-derived key, the chosen cipher and the IV stored in the specifier', where=fi.where,
@@ -493,7 +507,7 @@ def check_encrypt_keyblob(rep, prog):
         idx_clear = next((i for i, e in enumerate(s.events) if e[0] == 'call' and e[1] == '%s.clear' % me), None)
         rep.check(idx_store is not None and idx_clear is not None and idx_clear > idx_store, 'C06.3', 'PrivKey.encrypt_keyblob',
                   'encbytes stored at %s, clear at %s' % (idx_store, idx_clear), 'after protecting, the cleartext secret fields must be wiped', where=fi.where)
-        rep.check(st.get('%s.encbytes' % me, '') == '_encrypt(%s)' % ', '.join(a), 'C06.3', 'PrivKey.encrypt_keyblob', 'encbytes = ciphertext',
+        rep.check(st.get('%s.encbytes' % me, '') == '_encrypt(%s)' % ', '.join(a_raw), 'C06.3', 'PrivKey.encrypt_keyblob', 'encbytes = ciphertext',
                   'the at-rest form is the ciphertext', where=fi.where, found=st.get('%s.encbytes' % me))
     pr = prog.method('pgpy.packet.packets', 'PrivKeyV4', 'protect')
     rep.saw(fn=pr)
